@@ -18,6 +18,33 @@ def names(p):
     return [strip_generics(e[1]) for e in p.ev if e[0] == "call"]
 
 
+def ignore_files_consulted(ctx, rule):
+    """every non-whitelisted path through GlobsetFilterer::check_event asks the loaded ignore files, unconditionally (shared with C03)"""
+    facts = ctx.facts
+    ce = ctx.anchor_one(rule, "<GlobsetFilterer as Filterer>::check_event", facts.trait_methods(GF, "Filterer", "check_event"))
+    root = thir.root(ce)
+    pathx.SUBST = pathx.let_substitutions(root)
+    try:
+        ps = pathx.Enum(interesting=interesting).paths(root)
+    finally:
+        pathx.SUBST = {}
+    ctx.floor(rule, "event-level paths", len(ps), 4)
+    bad = []
+    n = 0
+    for p in ps:
+        brs = [e for e in p.ev if e[0] == "branch"]
+        wl = [b for b in brs if "Iterator::any(Event::paths(event), closure)" in b[1] or "whitelist" in b[1]]
+        if wl and wl[0][2] and not wl[0][1].startswith("Not "):
+            continue
+        n += 1
+        first = [b for b in brs if b not in wl[:1]]
+        if not (first and "check_event(self.ignore_files" in first[0][1].replace("^", "")):
+            bad.append(repr(p)[:200])
+    ctx.require(n >= 3 and not bad, rule, "globset-consults-ignore-files", "after the whitelist, the first decision on every path is the loaded ignore files' verdict on the event (%d paths)" % n,
+                ce.loc(ce.line), detail=str(bad[:2]),
+                fail="some events reach the glob stage without the loaded ignore files being asked (or only under an extra condition)")
+
+
 def run(ctx):
     ctx.level = "other"
     facts = ctx.facts
